@@ -37,6 +37,11 @@ def closed_form(rng: Any, s: Any, depth: int = 0) -> Any:
         return IdentityOperator(s)
     if kind == 'diagonal':
         d = gen.a_diagonal(rng, s)
+        if d is not None and rng.integers(3) == 0:
+            # entries spanning many orders of magnitude (every non-zero entry must still be inverted)
+            mag = 10.0 ** rng.integers(-5, 6, size=d._diagonal.shape)
+            d = DiagonalOperator(jnp.asarray(np.asarray(d._diagonal, np.float64) * mag, dtype=d._diagonal.dtype),
+                                 axis_destination=d.axis_destination, in_structure=s)
         return d if d is not None else gen.a_homothety(rng, s)
     if kind == 'qurot':
         return gen.a_qurot(rng, s)
@@ -96,7 +101,7 @@ def case_closed(rng: Any, ctx: Ctx, index: int) -> None:
                 LOG.violation('C06', 'C06.roundtrip', f'{type(op).__name__}.I.I/matrix', f'A.I.I differs from A (rel err {err:.3g})',
                               expr=dense.describe(op))
 
-    if square and np.linalg.matrix_rank(m) == len(m):
+    if square and np.linalg.matrix_rank(m) == len(m) and np.linalg.cond(m) < 1e4:
         guarded('C06.roundtrip', roundtrip)
     LOG.sample({'kind': 'closed-form', 'expr': dense.describe(op), 'inverse': dense.describe(inv)})
 
@@ -112,6 +117,8 @@ def case_pinv(rng: Any, ctx: Ctx, index: int) -> None:
     mask = rng.random(vals.shape) < 0.4
     if not mask.any():
         mask.flat[int(rng.integers(mask.size))] = True
+    if rng.integers(2):
+        vals = vals * 10.0 ** rng.integers(-5, 6, size=vals.shape)
     vals = np.where(mask, 0.0, vals)
     d0 = DiagonalOperator(jnp.asarray(vals, dtype=d._diagonal.dtype), axis_destination=d.axis_destination, in_structure=s)
     inv = d0.I                            # monitored (singular branch: pseudo-inverse + finiteness)
@@ -170,6 +177,16 @@ def case_lazy(rng: Any, ctx: Ctx, index: int) -> None:
     # lineax's BiCGStab returns NaN for an exactly zero right-hand side (a dependency behaviour, see
     # DESIGN §7): block-diagonal operands, whose blocks see zero sub-vectors, are not paired with it
     a = generate(lambda: spd_operator(rng, s, blockdiag=name != 'BiCGStab'))
+    scaling = gen.pick(rng, ['none', 'none', 'k*A', 'A*k', 'A/k', 'A/int'])
+    if scaling == 'k*A':
+        a = 2.5 * a              # Python scalars: weakly typed in JAX
+    elif scaling == 'A*k':
+        a = a * 0.75
+    elif scaling == 'A/k':
+        a = a / 3.0
+    elif scaling == 'A/int':
+        a = a / 2
+    LOG.count('C06.lazy.scaling', scaling)
     if not ctx.x64 and name in ('CG-default', 'CG-1e-5', 'BiCGStab', 'GMRES', 'NormalCG') and False:
         return
     with quiet():
@@ -214,6 +231,13 @@ def case_lazy(rng: Any, ctx: Ctx, index: int) -> None:
             LOG.violation('C06', 'C06.lazy-as_matrix', 'AbstractLazyInverseOperator.as_matrix/matrix',
                           f'as_matrix of the inverse is not the matrix inverse (rel err {err:.3g})', expr=dense.describe(a))
 
+    try:
+        jax.jit(lambda v: inv.mv(v))(gen.rand_input(rng, s))
+    except Exception as exc:  # noqa: BLE001 - an SPD operand whose lazy inverse cannot be applied at all
+        LOG.evaluated('C06.lazy-solve')
+        LOG.violation('C06', 'C06.lazy-solve', f'InverseOperator.mv/raises-{type(exc).__name__}/scaling={scaling}/x64={ctx.x64}',
+                      f'{str(exc)[:120]} (solver {name})', expr=dense.describe(a))
+        return
     guarded('C06.lazy-solve', solve)
     LOG.sample({'kind': 'lazy', 'solver': name, 'expr': dense.describe(a), 'cond': float(cond)})
 
